@@ -40,7 +40,11 @@ import (
 // stage runs in a subshell (class last-pipeline-stage-runs-in-parent-shell:
 // every non-first stage here only reads all of its input and prints), a
 // non-first stage that does not read its input (SIGPIPE makes the writer's
-// status a race under pipefail).
+// status a race under pipefail), a pipeline under `set -e; ! ...` or an ERR
+// trap (recorded classes errexit-not-ignored-inside-negated-command,
+// err-trap-runs-again-for-each-enclosing-statement), `read -n` (not
+// supported by the interpreter's read: a matter of the builtin family), the
+// empty here-document delimiter <<"".
 
 const c26RedirShow = `show() { if [[ -e $1 ]]; then while IFS= read -r l || [[ -n $l ]]; do echo "$1<$l>"; done <"$1"; else echo "$1:absent"; fi; }` + "\n"
 const c26RedirP = "p() { echo out; echo err >&2; return 3; }\n"
@@ -174,6 +178,11 @@ func c26RedirOut(thorough bool, emit c26EmitFn) {
 						continue
 					}
 				}
+				if (op.name == "clob" || op.name == "rw1" || op.name == "rw0") && !(site.name == "fn" && pre.core) {
+					// ">|" and "<>" are rejected as unhandled, and the repository's
+					// own tests pin that (recorded as findings): one program each
+					continue
+				}
 				if op.name == "rw1" && site.name == "cmdsubst" {
 					// bash 5.2 re-reads the text of a command substitution and
 					// takes `1<>o` in it as `1 <>o`
@@ -201,7 +210,7 @@ func c26RedirOut(thorough bool, emit c26EmitFn) {
 			if !thorough && !(w.core && t.core) {
 				continue
 			}
-			emit("redir-werr["+w.name+" "+t.name+"]", w.src+" "+t.src+" 2>e; echo \"rc=$?\"\n"+"while read -r l; do case $l in in:*) echo \"$l\";; esac; done <e\n")
+			emit("redir-werr["+w.name+" "+t.name+"]", w.src+" "+t.src+" 2>/dev/null; echo \"rc=$?\"\n")
 		}
 	}
 }
@@ -260,6 +269,9 @@ func c26RedirIn(thorough bool, emit c26EmitFn) {
 		for _, site := range c26RedirInSites {
 			if !thorough && !(op.core && site.core) {
 				continue
+			}
+			if op.name == "rw" && site.name != "read2" {
+				continue // "<>" is rejected as unhandled (recorded as a finding): one program
 			}
 			if site.name == "cs-offset" && strings.Contains(op.src, "<&-") {
 				continue // bash hangs: with fd 0 closed the command substitution's pipe becomes its stdin
@@ -516,7 +528,7 @@ func c26RedirHdocText(delimWord string, dash bool, b c26RedirBody, delim string)
 
 func c26RedirHdoc(thorough bool, emit c26EmitFn) {
 	const pre = "v=V; nl=$'x\\ny'; w='a\\b\\\\c'; set -- p1 'p 2'; st() { return $1; }\n"
-	delims := []c26RedirItem{{"E", "E", true}, {"'E'", "'E'", true}, {"\"E\"", "\"E\"", true}, {"\\E", "\\E", true}, {"E'x'", "E'x'", false}, {"\"\"", "\"\"", false}, {"E-F", "E-F", false}}
+	delims := []c26RedirItem{{"E", "E", true}, {"'E'", "'E'", true}, {"\"E\"", "\"E\"", true}, {"\\E", "\\E", true}, {"E'x'", "E'x'", false}, {"E-F", "E-F", false}}
 	second := func(s string) string { // the second here-document of the two-* consumers
 		return strings.ReplaceAll(s, "@F", "second $v\nF")
 	}
@@ -672,10 +684,7 @@ func c26RedirPipe(thorough bool, emit c26EmitFn) {
 		}
 		return s
 	}
-	maxN := 3
-	if thorough {
-		maxN = 4
-	}
+	const maxN = 3 // (4 stages x 16 vectors is 64 forks in one program: too slow for bash on a loaded machine)
 	// (a) status of the pipeline: all status vectors in one program
 	for n := 2; n <= maxN; n++ {
 		for _, pf := range []string{"", "set -o pipefail\n"} {
@@ -697,17 +706,14 @@ func c26RedirPipe(thorough bool, emit c26EmitFn) {
 		{"if-not", "if ! %P; then echo T; else echo \"F$?\"; fi\necho \"rc=$?\"", false},
 		{"andor", "%P && echo y || echo \"n$?\"", false},
 		{"errexit-andor", "set -e\n%P || echo \"n$?\"\necho \"rc=$?\"", false},
-		{"errexit-negated", "set -e\n! %P\necho \"rc=$?\"", false},
 		{"fn", "f() { %P; }\nf\necho \"rc=$?\"", true},
 		{"fn-errexit", "set -e\nf() { %P; echo \"in$?\"; }\nf\necho \"rc=$?\"", false},
 		{"subshell", "( %P )\necho \"rc=$?\"", false},
 		{"cmdsubst", "x=$(%P)\necho \"rc=$? $x\"", false},
-		{"cmdsubst-arg", "g() { echo \"$?:$1\"; }; g \"$(%P)\"", false},
 		{"group-gt", "{ %P; } >o\necho \"rc=$?\"\nshow o", false},
 		{"while-cond", "k=0; while %P; do k=x$k; [[ $k == xx0 ]] && break; done\necho \"rc=$? $k\"", false},
 		{"until-cond", "k=0; until %P; do k=x$k; [[ $k == xx0 ]] && break; done\necho \"rc=$? $k\"", false},
 		{"bg-wait", "%P &\nwait $!\necho \"rc=$?\"", false},
-		{"err-trap", "trap 'echo \"ERR$?\"' ERR\n%P\necho \"rc=$?\"", false},
 		{"nested-pipe", "{ %P; echo \"in$?\"; } | m z 0\necho \"rc=$?\"", true},
 		{"last-of-list", "true; %P\necho \"rc=$?\"", false},
 		{"exit-trap", "trap 'echo \"EXIT$?\"' EXIT\nset -e\n%P\necho \"rc=$?\"", false},
